@@ -32,43 +32,59 @@ NCoinbase(tx) == Cardinality({i \in Idx(tx.ins) : IsCb(tx.ins[i])})
 HasProg(tx) == \E i \in Idx(tx.ins) : ~IsCb(tx.ins[i])
 Mixed(tx) == NCoinbase(tx) >= 1 /\ HasProg(tx)
 
-(* totals are sums over the whole sequence with non-matching entries counted as 0 *)
-OutTotal(tx, a) == LSum([j \in Idx(tx.outs) |-> IF tx.outs[j].a = a THEN tx.outs[j].v ELSE LZero])
+(* amounts of the entries of a sequence that satisfy a predicate, and their exact sum *)
+AmtsWhere(seq, P(_), V(_)) == LET sel == SelectSeq([i \in Idx(seq) |-> i], P) IN [n \in Idx(sel) |-> V(sel[n])]
+OutTotal(tx, a) == LET P(j) == tx.outs[j].a = a  V(j) == tx.outs[j].v IN LSum(AmtsWhere(tx.outs, P, V))
 OutTotalAll(tx) == LSum([j \in Idx(tx.outs) |-> tx.outs[j].v])
+
+InAsset(tx, i) == IF IsCb(tx.ins[i]) THEN BTM ELSE tx.ins[i].a
+AssetsOf(tx) == {InAsset(tx, i) : i \in Idx(tx.ins)} \cup {tx.outs[j].a : j \in Idx(tx.outs)} \cup {BTM}
+SrcAssets(tx) == {InAsset(tx, i) : i \in Idx(tx.ins)}
+
+(* Per-asset totals of one transaction, computed once (T == Totals(tx)):          *)
+(*   out[a]  exact sum of the outputs of asset a                                  *)
+(*   in[a]   exact sum of the inputs of asset a. The protocol defines the value   *)
+(*           of a coinbase input as the sum of all output amounts of its          *)
+(*           transaction, in BTM (the mux source built by protocol/bc/types/      *)
+(*           map.go, which is part of the transaction id): it mints what is paid. *)
+(*   src[a]  sum of the mux value sources of asset a (the same numbers, kept      *)
+(*           apart because the rule set is stated on the mux)                     *)
+Totals(tx) ==
+  LET as == AssetsOf(tx)
+      out == [a \in as |-> OutTotal(tx, a)]
+      all == OutTotalAll(tx)
+  IN [out |-> out, all |-> all,
+      in  |-> [a \in as |-> LET P(i) == InAsset(tx, i) = a
+                                V(i) == IF IsCb(tx.ins[i]) THEN all ELSE tx.ins[i].v
+                            IN LSum(AmtsWhere(tx.ins, P, V))],
+      src |-> [a \in as |-> LET P(i) == InAsset(tx, i) = a
+                                V(i) == IF IsCb(tx.ins[i]) THEN all ELSE tx.ins[i].v
+                            IN LSum(AmtsWhere(tx.ins, P, V))]]
 
 -----------------------------------------------------------------------------
 (* 1. The property (exact arithmetic, no machine integers).                   *)
-(* A coinbase input mints exactly the BTM the transaction pays out.           *)
-InAsset(tx, i) == IF IsCb(tx.ins[i]) THEN BTM ELSE tx.ins[i].a
-InValue(tx, i) == IF IsCb(tx.ins[i]) THEN OutTotal(tx, BTM) ELSE tx.ins[i].v
-InTotal(tx, a) == LSum([i \in Idx(tx.ins) |-> IF InAsset(tx, i) = a THEN InValue(tx, i) ELSE LZero])
-
-AssetsOf(tx) == {InAsset(tx, i) : i \in Idx(tx.ins)} \cup {tx.outs[j].a : j \in Idx(tx.outs)}
-Conserves(tx) == /\ \A a \in AssetsOf(tx) \ {BTM} : InTotal(tx, a) = OutTotal(tx, a)
-                 /\ LLeq(OutTotal(tx, BTM), InTotal(tx, BTM))
-BtmDiff(tx) == IF LLeq(OutTotal(tx, BTM), InTotal(tx, BTM))
-               THEN LSub(InTotal(tx, BTM), OutTotal(tx, BTM)) ELSE LZero
+ConservesT(tx, T) == /\ \A a \in AssetsOf(tx) \ {BTM} : T.in[a] = T.out[a]
+                     /\ LLeq(T.out[BTM], T.in[BTM])
+BtmDiffT(T) == IF LLeq(T.out[BTM], T.in[BTM]) THEN LSub(T.in[BTM], T.out[BTM]) ELSE LZero
+Conserves(tx) == ConservesT(tx, Totals(tx))
+BtmDiff(tx) == BtmDiffT(Totals(tx))
 
 -----------------------------------------------------------------------------
 (* 2. The rule set.                                                           *)
-(* Value sources of the mux: one per input; the coinbase source carries the   *)
-(* sum of all output amounts (protocol/bc/types/map.go).                      *)
-SrcAmt(tx, i) == IF IsCb(tx.ins[i]) THEN OutTotalAll(tx) ELSE tx.ins[i].v
-SrcAssets(tx) == {InAsset(tx, i) : i \in Idx(tx.ins)}
-SrcTotal(tx, a) == LSum([i \in Idx(tx.ins) |-> IF InAsset(tx, i) = a THEN SrcAmt(tx, i) ELSE LZero])
+SrcAmtT(tx, T, i) == IF IsCb(tx.ins[i]) THEN T.all ELSE tx.ins[i].v
 
 (* checked int64: every amount <= 2^63-1; the running sums of non-negative    *)
 (* terms are monotone, so "never overflows" = "the total fits".               *)
-MuxSourcesOK(tx) == /\ \A i \in Idx(tx.ins) : LLeq(SrcAmt(tx, i), LMaxI64)
-                    /\ \A a \in SrcAssets(tx) : LLeq(SrcTotal(tx, a), LMaxI64)
+MuxSourcesOK(tx, T) == /\ \A i \in Idx(tx.ins) : LLeq(SrcAmtT(tx, T, i), LMaxI64)
+                       /\ \A a \in SrcAssets(tx) : LLeq(T.src[a], LMaxI64)
 MuxDestsOK(tx) == \A j \in Idx(tx.outs) :
                     /\ tx.outs[j].a \in SrcAssets(tx)               \* a destination needs a source asset
                     /\ LLeq(tx.outs[j].v, LMaxI64)
-Parity(tx, a) == SSubU(SPos(SrcTotal(tx, a)), OutTotal(tx, a))       \* sources - destinations, signed
-MuxNoUnderflow(tx) == \A a \in SrcAssets(tx) : SFitsI64(Parity(tx, a))
-MuxBalanced(tx) == /\ \A a \in SrcAssets(tx) \ {BTM} : Parity(tx, a) = SPos(LZero)
-                   /\ BTM \in SrcAssets(tx) => ~SIsNeg(Parity(tx, BTM))
-MuxFee(tx) == IF BTM \in SrcAssets(tx) /\ ~SIsNeg(Parity(tx, BTM)) THEN Parity(tx, BTM).mag ELSE LZero
+Parity(T, a) == SSubU(SPos(T.src[a]), T.out[a])                      \* sources - destinations, signed
+MuxNoUnderflow(tx, T) == \A a \in SrcAssets(tx) : SFitsI64(Parity(T, a))
+MuxBalanced(tx, T) == /\ \A a \in SrcAssets(tx) \ {BTM} : T.src[a] = T.out[a]
+                      /\ BTM \in SrcAssets(tx) => LLeq(T.out[BTM], T.src[BTM])
+MuxFeeT(tx, T) == IF BTM \in SrcAssets(tx) /\ LLeq(T.out[BTM], T.src[BTM]) THEN LSub(T.src[BTM], T.out[BTM]) ELSE LZero
 
 OutRule(o) == o.k = "vote" => (o.key = "ok" /\ o.a = BTM /\ LLeq(MinVote, o.v))
 InRule(tx, i) == LET x == tx.ins[i] IN
@@ -76,25 +92,30 @@ InRule(tx, i) == LET x == tx.ins[i] IN
                  ELSE IF x.k = "veto" THEN x.key = "ok" /\ x.prog = "ok"
                  ELSE x.prog = "ok"
 
-Rules(tx) == /\ tx.size = "pos" /\ tx.tr # "past"
-             /\ Len(tx.outs) >= 1                                    \* a version-1 transaction needs a result
-             /\ MuxSourcesOK(tx) /\ MuxDestsOK(tx) /\ MuxNoUnderflow(tx) /\ MuxBalanced(tx)
-             /\ \A j \in Idx(tx.outs) : OutRule(tx.outs[j])
-             /\ \A i \in Idx(tx.ins) : InRule(tx, i)
+Rules(tx, T) == /\ tx.size = "pos" /\ tx.tr # "past"
+                /\ Len(tx.outs) >= 1                                 \* a version-1 transaction needs a result
+                /\ MuxSourcesOK(tx, T) /\ MuxDestsOK(tx) /\ MuxNoUnderflow(tx, T) /\ MuxBalanced(tx, T)
+                /\ \A j \in Idx(tx.outs) : OutRule(tx.outs[j])
+                /\ \A i \in Idx(tx.ins) : InRule(tx, i)
 
 (* "yes" | "no" | "gas?"  (gas?: depends on the exact serialized size, not modelled) *)
-Accept(tx) == IF ~Rules(tx) THEN "no"
-              ELSE IF ~HasProg(tx) THEN "yes"
-              ELSE IF LLeq(GasSafe, MuxFee(tx)) THEN "yes"
-              ELSE IF LLt(MuxFee(tx), GasNone) THEN "no" ELSE "gas?"
+AcceptT(tx, T) == IF ~Rules(tx, T) THEN "no"
+                  ELSE IF ~HasProg(tx) THEN "yes"
+                  ELSE IF LLeq(GasSafe, MuxFeeT(tx, T)) THEN "yes"
+                  ELSE IF LLt(MuxFeeT(tx, T), GasNone) THEN "no" ELSE "gas?"
+Accept(tx) == AcceptT(tx, Totals(tx))
 
 -----------------------------------------------------------------------------
-(* Design theorem. A coinbase transaction that carries further inputs is the  *)
-(* one shape for which the rule set above (which is the protocol's mapping)   *)
-(* does not imply the property; it is exported like every other case and      *)
-(* judged on the code by the property alone.                                  *)
-Sound(tx) == (Accept(tx) # "no" /\ ~Mixed(tx)) => (Conserves(tx) /\ MuxFee(tx) = BtmDiff(tx))
+(* Design theorem: whatever the rule set lets through satisfies the property.  *)
+SoundT(tx, T) == AcceptT(tx, T) # "no" => (ConservesT(tx, T) /\ MuxFeeT(tx, T) = BtmDiffT(T))
+Sound(tx) == SoundT(tx, Totals(tx))
 
 (* What the binding compares: *)
-Judge(tx) == [acc |-> Accept(tx), cons |-> Conserves(tx), fee |-> BtmDiff(tx), mixed |-> Mixed(tx)]
+JudgeT(tx, T) ==
+  [acc |-> AcceptT(tx, T), cons |-> ConservesT(tx, T), fee |-> BtmDiffT(T), mixed |-> Mixed(tx),
+   why |-> IF ConservesT(tx, T) THEN "ok"
+           ELSE IF \E a \in AssetsOf(tx) \ {BTM} : T.in[a] # T.out[a] THEN "asset-unbalanced"
+           ELSE "btm-out-exceeds-in",
+   sound |-> SoundT(tx, T)]
+Judge(tx) == JudgeT(tx, Totals(tx))
 =============================================================================
